@@ -25,15 +25,19 @@ type constEntry struct {
 
 // parseTypesGo extracts, with go/types, the named integer types of types.go
 // and their constants (name, value) - not from types_string.go.
-func parseTypesGo(path string) (map[string][]constEntry, map[string]int, error) {
+func parseTypesGo(paths ...string) (map[string][]constEntry, map[string]int, error) {
 	fset := token.NewFileSet()
-	f, err := parser.ParseFile(fset, path, nil, 0)
-	if err != nil {
-		return nil, nil, err
+	var files []*ast.File
+	for _, path := range paths {
+		f, err := parser.ParseFile(fset, path, nil, 0)
+		if err != nil {
+			return nil, nil, err
+		}
+		files = append(files, f)
 	}
 	conf := types.Config{Importer: importer.Default(), Error: func(error) {}}
 	info := &types.Info{Defs: map[*ast.Ident]types.Object{}}
-	conf.Check("fit", fset, []*ast.File{f}, info)
+	conf.Check("fit", fset, files, info)
 	consts := map[string][]constEntry{}
 	bits := map[string]int{}
 	for id, obj := range info.Defs {
@@ -69,6 +73,36 @@ func runC20(c *Ctx) {
 	if err != nil {
 		c.die("types.go: %v", err)
 	}
+	// constants of the generated types declared anywhere else in the package
+	// (a hand-added product or manufacturer) are profile constants too
+	if ents, err := os.ReadDir(repoDir); err == nil {
+		var all []string
+		for _, e := range ents {
+			n := e.Name()
+			if strings.HasSuffix(n, ".go") && !strings.HasSuffix(n, "_test.go") && n != "verif_export.go" && n != "types_string.go" {
+				all = append(all, filepath.Join(repoDir, n))
+			}
+		}
+		if ac, _, err := parseTypesGo(all...); err == nil {
+			extra := 0
+			for t, ces := range ac {
+				if _, ok := consts[t]; !ok {
+					continue
+				}
+				have := map[string]bool{}
+				for _, ce := range consts[t] {
+					have[ce.Name] = true
+				}
+				for _, ce := range ces {
+					if !have[ce.Name] {
+						consts[t] = append(consts[t], ce)
+						extra++
+					}
+				}
+			}
+			c.Cov["constants_declared_outside_types_go"] = extra
+		}
+	}
 	m := reTypesHeader.FindSubmatch(mustRead(filepath.Join(repoDir, "types_string.go")))
 	if m == nil {
 		c.die("types_string.go has no type list header")
@@ -92,7 +126,7 @@ func runC20(c *Ctx) {
 	// probe program
 	dir := c.scratchDir()
 	var src bytes.Buffer
-	src.WriteString("package main\n\nimport (\n\t\"fmt\"\n\t\"github.com/tormoder/fit\"\n)\n\nfunc main() {\n")
+	src.WriteString(probeHead)
 	nvals := 0
 	for _, t := range append(append([]string{}, typeList...), probeExtra...) {
 		w := bits[t]
@@ -139,13 +173,25 @@ func runC20(c *Ctx) {
 			}
 			fmt.Fprintf(&src, "%d", v)
 		}
-		fmt.Fprintf(&src, "} {\n\t\tfmt.Printf(\"%s\\t%%d\\t%%s\\n\", v, fit.%s(v).String())\n\t}\n", t, t)
+		fmt.Fprintf(&src, "} {\n\t\temit(\"%s\", v, fit.%s(v).String())\n\t}\n", t, t)
 	}
 	src.WriteString("}\n")
+	// a file with unknown message numbers and fields: decoding it (with a
+	// logger that formats its arguments) must not change what String() returns
+	{
+		st := newStream(12, false)
+		st.FileId(0, 0, 4)
+		for k, m := range []uint16{0xFF00, 291, 65346, 20, 0xFF42} {
+			st.Def(1+k, byte(k%2), m, []FieldDef{{250, 1, 2}, {3, 1, 2}}, nil)
+			st.Data(1+k, []byte{byte(k), 7})
+		}
+		st.Compressed(1, 3, []byte{1, 2})
+		os.WriteFile(filepath.Join(dir, "in.fit"), st.Bytes(), 0o644)
+	}
 	os.WriteFile(filepath.Join(dir, "main.go"), src.Bytes(), 0o644)
 	os.WriteFile(filepath.Join(dir, "go.mod"), []byte("module probe\n\ngo 1.21\n\nrequire github.com/tormoder/fit v0.0.0\n\nreplace github.com/tormoder/fit => "+repoDir+"\n"), 0o644)
 	os.WriteFile(filepath.Join(dir, "go.sum"), mustRead(filepath.Join(repoDir, "go.sum")), 0o644)
-	cmd := exec.Command("go", "run", ".")
+	cmd := exec.Command("go", "run", ".", filepath.Join(dir, "in.fit"))
 	cmd.Dir = dir
 	var out, errb bytes.Buffer
 	cmd.Stdout, cmd.Stderr = &out, &errb
@@ -154,8 +200,16 @@ func runC20(c *Ctx) {
 	}
 	var tb bytes.Buffer
 	nev := 0
-	for _, line := range strings.Split(strings.TrimSpace(out.String()), "\n") {
+	stableSeen := false
+	for _, line := range strings.Split(strings.TrimRight(out.String(), "\n"), "\n") {
 		p := strings.SplitN(line, "\t", 3)
+		if len(p) == 2 && p[0] == "STABLE" {
+			b, _ := json.Marshal(map[string]interface{}{"kind": "stable", "equal": b2i(p[1] == ""), "detail": p[1]})
+			tb.Write(b)
+			tb.WriteByte('\n')
+			stableSeen = true
+			continue
+		}
 		if len(p) != 3 {
 			continue
 		}
@@ -170,8 +224,8 @@ func runC20(c *Ctx) {
 		tb.WriteByte('\n')
 		nev++
 	}
-	if nev != nvals {
-		c.die("probe printed %d of %d values", nev, nvals)
+	if nev != nvals || !stableSeen {
+		c.die("probe printed %d of %d values (stability line: %v)", nev, nvals, stableSeen)
 	}
 	// regeneration with the repository's stringer
 	equal, detail := regenerate(c, typeList)
@@ -232,7 +286,7 @@ func main() {
 }
 `, string(tl), filepath.Join(repoDir, "types.go"))
 	os.WriteFile(filepath.Join(dir, "main.go"), []byte(main), 0o644)
-	cmd := exec.Command("go", "run", ".")
+	cmd := exec.Command("go", "run", ".", filepath.Join(dir, "in.fit"))
 	cmd.Dir = dir
 	var out, errb bytes.Buffer
 	cmd.Stdout, cmd.Stderr = &out, &errb
@@ -252,3 +306,48 @@ func main() {
 	}
 	return false, fmt.Sprintf("lengths differ: generated %d lines, checked in %d", len(a), len(b))
 }
+
+const probeHead = `package main
+
+import (
+	"bytes"
+	"encoding/binary"
+	"fmt"
+	"io"
+	"os"
+
+	"github.com/tormoder/fit"
+)
+
+type lg struct{}
+
+func (lg) Print(a ...interface{})            { fmt.Fprint(io.Discard, a...) }
+func (lg) Printf(f string, a ...interface{}) { fmt.Fprintf(io.Discard, f, a...) }
+func (lg) Println(a ...interface{})          { fmt.Fprintln(io.Discard, a...) }
+
+func main() {
+	var first []string
+	probe(func(t string, v uint64, s string) {
+		fmt.Printf("%s\t%d\t%s\n", t, v, s)
+		first = append(first, s)
+	})
+	// ordinary use of the library in between
+	b, _ := os.ReadFile(os.Args[1])
+	f, _ := fit.Decode(bytes.NewReader(b), fit.WithLogger(lg{}), fit.WithUnknownFields(), fit.WithUnknownMessages())
+	fit.DecodeChained(bytes.NewReader(append(append([]byte{}, b...), b...)), fit.WithLogger(lg{}))
+	fit.CheckIntegrity(bytes.NewReader(b), false)
+	if f != nil {
+		fit.Encode(io.Discard, f, binary.BigEndian)
+	}
+	i, diff := 0, ""
+	probe(func(t string, v uint64, s string) {
+		if diff == "" && first[i] != s {
+			diff = fmt.Sprintf("%s(%d) printed %q, after decoding a file it prints %q", t, v, first[i], s)
+		}
+		i++
+	})
+	fmt.Printf("STABLE\t%s\n", diff)
+}
+
+func probe(emit func(t string, v uint64, s string)) {
+`
